@@ -13,8 +13,9 @@ from .values import Opaque, Unsupported
 class Poison:
     """value of a variable that must not be read (loop-carried dependency, after-loop value)"""
 
-    def __init__(self, why):
+    def __init__(self, why, prange_carried=None):
         self.why = why
+        self.prange_carried = prange_carried  # line of the nb.prange loop across whose iterations the value would be carried
 
     def __repr__(self):
         return f"Poison({self.why})"
@@ -152,6 +153,17 @@ class Class:
                         p = mem.get(st.name)
                         if isinstance(p, Property):
                             p.fset = f
+                        else:
+                            # `@Base.prop.setter` in a subclass: a new property with the inherited getter
+                            inherited = None
+                            for b in self.bases:
+                                m, _ = b.lookup(st.name)
+                                if isinstance(m, Property):
+                                    inherited = m
+                                    break
+                            if inherited is None:
+                                raise Unsupported(f"setter {self.name}.{st.name} without a property to attach to")
+                            mem[st.name] = Property(inherited.fget, f)
                         continue
                     if any(d in ("property", "cached_property", "cached_property()", "hybridmethod") or d.startswith("cached_property") for d in decos):
                         mem[st.name] = Property(f)
